@@ -158,7 +158,9 @@ def plan(prop, tier):
     q = tier == "quick"
     if prop == "C01":
         mc = [("A", 3, "valid", "single")] if q else [("A", 3, "valid", "all"), ("C", 3, "valid", "single"), ("D", 2, "valid", "all")]
-        bs = [B("A", 3 if q else 4), B("C", 3, sample=1500 if q else None), B("D", 2 if q else 3), B("B", 3, sample=2000 if q else None),
+        # (thorough: A to 4 transactions is 131k histories, C to 3 is 54k, D to 3 is 79k - each under up to 23 method schedules: sampled, the whole
+        # set does not fit in memory next to its traces)
+        bs = [B("A", 3 if q else 4, sample=None if q else 40000), B("C", 3, sample=1500 if q else 15000), B("D", 2 if q else 3, sample=None if q else 20000), B("B", 3, sample=2000 if q else None),
               B("Y", 4, sample=400 if q else 6000),           # four calendar years: schedules with three and four entries
               B("F", 3, ods=True, sample=400 if q else None),  # through the spreadsheet: acquisitions with a crypto fee (artificial fee disposals take part in matching)
               B("B", 4, runs=runs_windows, configs=cfg_one_method, sample=600 if q else 6000),   # under a from-date: fees of earlier transfers have taken their part of the lots
@@ -167,12 +169,12 @@ def plan(prop, tier):
     elif prop == "C02":
         mc = [("A", 3, "any", "single")] if q else [("A", 3, "any", "all"), ("B", 3, "any", "single")]
         bs = [B("A", 3, mode="any", runs=runs_prefixes, configs=cfg_two_methods, sample=4000 if q else None),
-              B("A", 3 if q else 4, sample=None if not q else 4000), B("B", 3, mode="any", runs=runs_prefixes, configs=cfg_one_method, sample=1500 if q else None),
+              B("A", 3 if q else 4, sample=40000 if not q else 4000), B("B", 3, mode="any", runs=runs_prefixes, configs=cfg_one_method, sample=1500 if q else None),
               *([B("A", 4, sample=2500, configs=cfg_two_methods)] if q else []),
               B("F", 3, ods=True, runs=runs_prefixes, configs=cfg_two_methods, sample=300 if q else None),
               B("B", 4, runs=runs_windows, configs=cfg_one_method, sample=600 if q else 6000),     # a date filter must not change which lots are consumed
-              B("C", 3, configs=cfg_two_methods, sample=2500 if q else None),
-              B("D", 2 if q else 3, mode="any", runs=runs_prefixes, configs=cfg_two_methods),
+              B("C", 3, configs=cfg_two_methods, sample=2500 if q else 15000),
+              B("D", 2 if q else 3, mode="any", runs=runs_prefixes, configs=cfg_two_methods, sample=None if q else 20000),
               B("A", 12, sim=150 if q else 3000, depth=12)]
     elif prop == "C03":
         mc = [("T", 2, "valid", "single")] if q else [("T", 3, "valid", "single")]
